@@ -1062,6 +1062,7 @@ func runC11(c *core.Ctx) core.Meta {
 	checkFlushBeforeCopy(c, pd, pc, prov, "R11.5")
 
 	checkIntegerWidths(c, "R11.18", "Addresses and sizes in the storage accessor and the copy paths are not narrowed, nor widened after they could wrap.", 2, []widthScope{{rel: emuPkg, filter: recvIs("storageAccessorImpl")}}, []string{"narrow", "widen-wrapped", "unsigned-diff"}, widthAllowC11)
+	checkDstFoundFromRequestAddress(c, "R11.19", "In the DMA engine the address is the current copy address: a read of a device-to-host copy that starts at the beginning of the access unit returns bytes before the range and the reply is put at a negative offset.", 2, NewPkgInfo(c, cpPkg))
 	return core.Meta{Level: "other",
 		Explanation: "Structural clauses of host-device copies decided on SSA of amd/driver, amd/timing/cp (CP middleware + DMA engine) and the emulator's storage accessor: the overlap predicate over all 75 weak orderings (order-domain abstract interpretation), completion only on an empty outstanding list / finished collection, the six splitting loops (min(remaining, unit remainder), same step for all cursors, slice and size = chunk), piece addressing through the page found for the address, SEND-DISCIPLINE of DMA/CP/driver send stages, clone FIELDS, flush-before-copy ordering.",
 		NotDecided:  "byte equality of copied data for every offset/length (arithmetic over runtime values); cache flush effectiveness; zero-length copies",
